@@ -219,12 +219,12 @@ pub fn harden_ros(c: &RosCase) -> Vec<(String, RosCase)> {
     let extra: AC = (ArrSpec::Sporadic { t: 7, j: 1 }, CostSpec::Scalar(1));
     // supply
     let sup = match c {
-        RosCase::EventSource { supply, .. } | RosCase::Timer { supply, .. } | RosCase::Pp { supply, .. } | RosCase::Chain { supply, .. } | RosCase::ChainSummed { supply, .. } | RosCase::Sub { supply, .. } => supply.clone(),
+        RosCase::EventSource { supply, .. } | RosCase::Timer { supply, .. } | RosCase::Pp { supply, .. } | RosCase::Chain { supply, .. } | RosCase::ChainSummed { supply, .. } | RosCase::ChainGeneral { supply, .. } | RosCase::Sub { supply, .. } => supply.clone(),
     };
     for (n, w) in weaker_supplies(&sup) {
         let mut h = c.clone();
         match &mut h {
-            RosCase::EventSource { supply, .. } | RosCase::Timer { supply, .. } | RosCase::Pp { supply, .. } | RosCase::Chain { supply, .. } | RosCase::ChainSummed { supply, .. } | RosCase::Sub { supply, .. } => *supply = w,
+            RosCase::EventSource { supply, .. } | RosCase::Timer { supply, .. } | RosCase::Pp { supply, .. } | RosCase::Chain { supply, .. } | RosCase::ChainSummed { supply, .. } | RosCase::ChainGeneral { supply, .. } | RosCase::Sub { supply, .. } => *supply = w,
         }
         out.push((format!("supply: {n}"), h));
     }
@@ -329,6 +329,7 @@ pub fn harden_ros(c: &RosCase) -> Vec<(String, RosCase)> {
             }
             out.push(("one more callback".into(), h));
         }
+        RosCase::ChainGeneral { .. } => {}
         RosCase::ChainSummed { costs, others, .. } => {
             for k in 0..costs.len() {
                 let mut h = c.clone();
@@ -521,7 +522,7 @@ pub fn run_c17(ctx: &mut Ctx) -> (String, Value, Vec<String>) {
         if let Outcome::Ok(a) = base {
             for dl in [1u64, 50] {
                 let cur = match c {
-                    RosCase::EventSource { limit, .. } | RosCase::Timer { limit, .. } | RosCase::Pp { limit, .. } | RosCase::Chain { limit, .. } | RosCase::ChainSummed { limit, .. } | RosCase::Sub { limit, .. } => *limit,
+                    RosCase::EventSource { limit, .. } | RosCase::Timer { limit, .. } | RosCase::Pp { limit, .. } | RosCase::Chain { limit, .. } | RosCase::ChainSummed { limit, .. } | RosCase::ChainGeneral { limit, .. } | RosCase::Sub { limit, .. } => *limit,
                 };
                 let h = crate::props::c07::set_limit(c, cur + dl);
                 pairs.fetch_add(1, Ordering::Relaxed);
@@ -668,7 +669,7 @@ pub fn run_c19(ctx: &mut Ctx) -> (String, Value, Vec<String>) {
             for alt in [SupplySpec::Periodic { q: p, p }, SupplySpec::Constrained { q: p, dl: p, p }, SupplySpec::Opaque(Box::new(SupplySpec::Periodic { q: p, p }))] {
                 let mut h = c.clone();
                 match &mut h {
-                    RosCase::EventSource { supply, .. } | RosCase::Timer { supply, .. } | RosCase::Pp { supply, .. } | RosCase::Chain { supply, .. } | RosCase::ChainSummed { supply, .. } | RosCase::Sub { supply, .. } => *supply = alt.clone(),
+                    RosCase::EventSource { supply, .. } | RosCase::Timer { supply, .. } | RosCase::Pp { supply, .. } | RosCase::Chain { supply, .. } | RosCase::ChainSummed { supply, .. } | RosCase::ChainGeneral { supply, .. } | RosCase::Sub { supply, .. } => *supply = alt.clone(),
                 }
                 let r = catch(|| run_ros(&h));
                 n.fetch_add(1, Ordering::Relaxed);
